@@ -738,10 +738,11 @@ def rule_pad_body(ctx, cd, which: str, rule_id: str):
             if not text.strip():
                 continue      # n <= 1: nothing to pad
             n += 1
-            nb = p.name_of("n_bits")
+            pname = cd.macro(lang, which, "_pad_to_alignment").args[0].name
+            nb = p.name_of(pname)
             if which == "des":
                 if lang == "c":
-                    nm1 = p.name_of("(n_bits - 1)")
+                    nm1 = p.name_of(f"({pname} - 1)")
                     ok = nm1 is not None and re.search(r"offset_bits = \(offset_bits \+ " + nm1 + r"U\) & ~\(\w+\) ?" + nm1 + r"U;", text) is not None
                 else:
                     ok = nb is not None and re.search(r"in_buffer\.align_offset_to<" + nb + r"U>\(\);", text) is not None
